@@ -28,10 +28,8 @@ for patch in seeds:
         F = fx.load(facts_dir)
         G = gx.Graph(F)
         for p in props:
-            ctx = runner.Ctx(p, F, G, "thorough", 0, digest, fresh)
             try:
-                mod = importlib.import_module("rules." + p)
-                mod.run(ctx)
+                ctx = runner.evaluate(p, F, "thorough", 0, digest, fresh, G=G)
                 viol = [runner.vkey(p, o) for r_ in ctx.rules for o in r_.obligations if not o["ok"]]
             except Exception as e:
                 viol = ["CRASH: %r" % e]
